@@ -644,3 +644,104 @@ def rule_ebr_init(ctx):
         r.violate(kb.name, "collector", "Local::collector does not return the participant's own collector", kb.loc(0))
     r.require(len(r.instances), 9, "constructor obligations")
     return r
+
+
+def _tunable(prog, t):
+    """value of a term that is an integer constant or a read of a named static with an evaluated initial value"""
+    import re
+    v = const_of(t)
+    if v is not None:
+        return v, "constant"
+    m = re.findall(r"static ([A-Za-z0-9_:]+):", show(t))
+    if len(set(m)) == 1:
+        st = [x for x in prog.items.get("statics", []) if x["path"] == m[0]]
+        # a plain read of the static itself: load(deref(address))
+        t0 = t
+        while isinstance(t0, tuple) and t0[0] in ("load", "deref", "cast"):
+            t0 = t0[1] if t0[0] != "cast" else t0[2]
+        plain = isinstance(t0, tuple) and t0[0] == "c" and t is not t0
+        if st and "int" in st[0] and plain:
+            return int(st[0]["int"]), "static %s" % m[0].split("::")[-1]
+    return None, None
+
+
+def rule_tunables(ctx):
+    """The liveness half of the collector hangs on a handful of numbers: how many deferrals fill a bag, after how many
+    events a thread flushes and tries to advance, how many bags one collection pops.  Zero in any of them compiles and
+    passes every functional test on a quiet machine, and either divides by zero or silently never reclaims."""
+    r = RuleResult("EBR-TUNABLES", ["C15", "C04", "C20"],
+                   "the collector's tunables are positive: a bag holds at least one deferred function, every periodic trigger "
+                   "(`count % N == 0`) has N >= 1, one collection tries to pop at least one bag")
+    prog = ctx.prog
+    P = "ebr_impl::internal::"
+    n = 0
+    # (1) divisors of the periodic triggers
+    for name in sorted(nm for nm in prog.bodies if nm.startswith(("ebr_impl::", "utils::")) and prog.bodies[nm].kind != "closure"
+                       and not nm.startswith(("utils::Modular::", "utils::State::"))):
+        b = prog.body(name)
+        if not any(st["k"] == "assign" and st["rv"]["k"] == "binop" and st["rv"]["op"] in ("Rem", "Div")
+                   for bi in b.reachable() for st in b.blocks[bi]["stmts"]):
+            continue
+        seen = set()
+        for p in ctx.ex.paths(b):
+            for e in p.events:
+                terms = [e.term] if e.kind == "cond" else list(getattr(e, "args", None) or []) if e.kind == "call" else []
+                for t in terms:
+                    for x in subterms(t):
+                        if x[0] == "bin" and x[1] in ("Rem", "Div"):
+                            v, what = _tunable(prog, x[3])
+                            key = show(x[3])
+                            if v is None or key in seen:
+                                continue
+                            seen.add(key)
+                            n += 1
+                            r.functions.add(name)
+                            ok = v >= 1
+                            r.instance("%s: period %s = %d >= 1" % (name.split("::")[-1], what, v), ok)
+                            if not ok:
+                                r.violate(name, "period", "a periodic trigger divides by a tunable that is 0: the first event "
+                                          "panics (division by zero) - from every thread that drops an Rc", e.loc())
+    # (2) capacity of a bag
+    bd = "<ebr_impl::internal::Bag as std::default::Default>::default"
+    if bd in prog.bodies:
+        b, ps = _ret_paths(ctx, bd)
+        for p in ps:
+            for e in _calls(p, lambda e: norm(e.target or "") == "std::vec::Vec::with_capacity"):
+                v, what = _tunable(prog, e.args[0])
+                if v is None:
+                    continue
+                n += 1
+                r.functions.add(bd)
+                ok = v >= 1
+                r.instance("Bag capacity %s = %d >= 1" % (what, v), ok)
+                if not ok:
+                    r.violate(bd, "capacity", "a bag holds no deferred function: try_push fails for ever and Local::defer spins "
+                              "pushing empty bags (every drop of an Rc hangs)", e.loc())
+    # (3) bags popped per collection
+    cb = prog.body(P + "Global::collect")
+    r.functions.add(cb.name)
+    trials = set()
+    for p in ctx.ex.paths(cb):
+        for e in p.events:
+            if e.kind == "call" and norm(e.target or "").endswith("IntoIterator>::into_iter"):
+                a = strip(e.args[0])
+                if isinstance(a, tuple) and a[0] == "agg" and "Range" in str(a[1]):
+                    lo, hi = const_of(a[3][0]), const_of(a[3][1])
+                    if lo is not None and hi is not None:
+                        trials.add(hi - lo)
+    pops = any(norm(c.target or "").startswith("ebr_impl::sync::queue::Queue::try_pop") for (_, _, c) in cb.calls())
+    if trials:
+        n += 1
+        ok = min(trials) >= 1 and pops
+        r.instance("Global::collect tries to pop up to %s bag(s)" % sorted(trials), ok)
+        if not ok:
+            r.violate(cb.name, "trials", "a collection pops no bag at all: nothing that was ever deferred is run (every object "
+                      "leaks) although every test that does not count destructions passes", cb.loc(0))
+    elif pops:
+        # an unbounded or differently written loop: at least it pops
+        n += 1
+        r.instance("Global::collect pops bags (loop bound not a constant range)", True)
+    else:
+        r.violate(cb.name, "trials", "Global::collect no longer pops the global queue", cb.loc(0))
+    r.require(n, 3, "tunables")
+    return r
